@@ -29,6 +29,14 @@ _EVD_PREF = ("                expr = expr.subs(preferred, killable)\n"
              "                if len(deltas) > 1:\n"
              "                    return evaluate_deltas(expr, target_idx)")
 
+# the repaired end of simplify_term_unitary (F56); witnesses anchored on it are skipped as long as /repo does not have the fix
+_F56 = ("            if len(new_term) == 1:\n"
+        "                return simplify_term_unitary(new_term.terms[0])\n"
+        "            res = e.Expr(0, **term.assumptions)\n"
+        "            for new_t in new_term.terms:\n"
+        "                res += simplify_term_unitary(new_t)\n"
+        "            return res\n")
+
 WITNESSES = [
     # ------------------------------------------------------------------ breaking edits
     dict(id="c20-target-guard", prop="C20", file=S, expect="R20a",
@@ -175,7 +183,31 @@ WITNESSES = [
          new="            elif preferred not in target_idx:"),
     dict(id="c20-evd-restart-targets-of-first-delta", prop="C20", file=F, expect="R20c",
          old=_EVD_PREF, new=_EVD_PREF.replace("evaluate_deltas(expr, target_idx)", "evaluate_deltas(expr, [killable])")),
+    # revert of the fix of F56 (only the first addend of a sum factor survives when the pair leaves nothing else) and variants
+    dict(id="c20-F56-revert", prop="C20", file=S, expect="R20b",
+         old=_F56, new="            return simplify_term_unitary(new_term.terms[0])\n"),
+    dict(id="c20-f56-always-first", prop="C20", file=S, expect="R20b",
+         old="            if len(new_term) == 1:\n                return simplify_term_unitary(new_term.terms[0])\n",
+         new="            if len(new_term) >= 1:\n                return simplify_term_unitary(new_term.terms[0])\n"),
+    dict(id="c20-f56-skips-first", prop="C20", file=S, expect="R20b",
+         old="            for new_t in new_term.terms:\n                res += simplify_term_unitary(new_t)\n",
+         new="            for new_t in new_term.terms[1:]:\n                res += simplify_term_unitary(new_t)\n"),
+    dict(id="c20-f56-addends-not-simplified", prop="C20", file=S, expect="R20b",
+         old="            for new_t in new_term.terms:\n                res += simplify_term_unitary(new_t)\n",
+         new="            for new_t in new_term.terms:\n                res += new_t\n"),
     # ------------------------------------------------------------------ behaviour-preserving edits
+    dict(id="c20-ok-f56-twin-parts", prop="C20", file=S, expect=None,
+         old=_F56, new="            parts = [simplify_term_unitary(new_t) for new_t in new_term.terms]\n"
+                       "            if len(parts) == 1:\n                return parts[0]\n"
+                       "            res = e.Expr(0, **term.assumptions)\n            for part in parts:\n                res += part\n"
+                       "            return res\n"),
+    dict(id="c20-ok-f56-twin-always-sum", prop="C20", file=S, expect=None,
+         old=_F56, new="            res = e.Expr(0, **term.assumptions)\n            for new_t in new_term.terms:\n"
+                       "                res += simplify_term_unitary(new_t)\n            return res\n"),
+    dict(id="c20-ok-f56-twin-sum-builtin", prop="C20", file=S, expect=None,
+         old=_F56, new="            if len(new_term.terms) < 2:\n                return simplify_term_unitary(new_term.terms[0])\n"
+                       "            return sum((simplify_term_unitary(new_t) for new_t in new_term.terms),\n"
+                       "                       e.Expr(0, **term.assumptions))\n"),
     # the restarts of evaluate_deltas spelled differently (targets still handed on)
     dict(id="c20-ok-evd-restart-keyword", prop="C20", file=F, expect=None,
          old=_EVD_PREF, new=_EVD_PREF.replace("evaluate_deltas(expr, target_idx)", "evaluate_deltas(expr, target_idx=target_idx)")),
